@@ -74,8 +74,8 @@ structure TimeInterval where
   seconds : Option Str
 deriving DecidableEq, Repr
 
-/-- `\d` for `str` patterns: Unicode decimal digits -/
-def reDigit (e : Env) (c : Char) : Bool := (e.decVal c).isSome
+/-- `\d` under `re.ASCII`: `[0-9]` (the environment is not consulted) -/
+def reDigit (_e : Env) (c : Char) : Bool := isAsciiDigit c
 
 /-- maximal run of `\d` -/
 def digitRun (e : Env) (s : Str) : Str × Str := (s.takeWhile (reDigit e), s.dropWhile (reDigit e))
@@ -93,11 +93,11 @@ def optGroup (e : Env) (s : Str) (x : Char) : Option Str × Str :=
 def optSeconds (e : Env) (s : Str) : Option Str × Str :=
   let (d1, r1) := digitRun e s
   if d1.isEmpty then (none, s) else
-  -- first alternative: `.` (any char but newline) then digits then `S`
+  -- first alternative: `\.` then digits then `S`
   let alt1 : Option (Str × Str) :=
     match r1 with
     | c :: r2 =>
-      if c = '\n' then none else
+      if c ≠ '.' then none else
       let (d2, r3) := digitRun e r2
       if d2.isEmpty then none else
       match r3 with
@@ -132,7 +132,8 @@ def matchBody (e : Env) (s : Str) : Option (Option Str × Option Str × Option S
   | some (h, mi, sec) => some (y, mo, d, h, mi, sec)
   | none => if atEnd s3 then some (y, mo, d, none, none, none) else none
 
-/-- is the text accepted by `float()`: digits, one of `. e E _` between two digit runs -/
+/-- is the text accepted by `float()`: digits, one of `. e E _` between two digit runs
+(always true of what the escaped pattern matches; kept because the code calls `float`) -/
 def floatOk (e : Env) (s : Str) : Bool :=
   let (d1, r) := digitRun e s
   if d1.isEmpty then false else
@@ -151,9 +152,9 @@ def groupInt (e : Env) (g : Option Str) : Option Int :=
 /-- `XmlDuration._parse_interval(value)`; `none` = `ValueError` -/
 def parseInterval (e : Env) (value : Str) : Option TimeInterval :=
   if value.length < 3 || value.getLast? = some 'T' then none else
-  let (neg, s1) := match value with
-    | '-' :: r => (true, r)
-    | _ => (false, value)
+  -- `^([-]?)P`
+  let neg : Bool := value.head? == some '-'
+  let s1 := if neg then value.tail else value
   match s1 with
   | 'P' :: body =>
     match matchBody e body with
